@@ -2,6 +2,18 @@
 #pragma once
 #include "hx_json.h"
 #include "iwxstr.h"
+#include <signal.h>
+#include <unistd.h>
+
+// watchdog: one op line may not take longer than HXP_OP_SECONDS (a corrupted node list makes the code loop forever)
+#define HXP_OP_SECONDS 3
+static void hxp_on_alarm(int sig) {
+  static const char msg[] = "\nHARNESS-WATCHDOG: operation did not terminate\n";
+  (void) sig;
+  if (write(2, msg, sizeof(msg) - 1) < 0) {}
+  _exit(70);
+}
+static void hxp_watchdog_init(void) { signal(SIGALRM, hxp_on_alarm); }
 
 #define HXJ_BUDGET 4000
 
